@@ -1047,8 +1047,33 @@ def c17(stream, scen=None):
     return wit
 
 
+def c17_hist(stream, scen=None):
+    """every routing-history update of a batch is applied to the parts it contains: after every
+    event the history of a batch is a suffix of the history of each part inside it."""
+    wit = []
+    for i, f in enumerate(frames(stream)):
+        if f.trigger[0] == 'abort':
+            return wit
+        if f.now is None:
+            continue
+        parts = parts_of(f.state)
+        live = {x for d in devs_of(f.state).values() for x in d.held()}
+        for b, r in parts.items():
+            if b not in live:        # a batch no device holds any more keeps its last printed line
+                continue
+            for k in r['kids'] or []:
+                if k not in parts:
+                    continue
+                hb, hk = r['hist'], parts[k]['hist']
+                if hb and hk[len(hk) - len(hb):] != hb:
+                    wit.append(f'frame {i} (t={f.now}): batch {b} has routing history {hb} but part {k} inside it has {hk}')
+        if len(wit) > 5:
+            break
+    return wit
+
+
 MONITORS.update({'C02': [c02], 'C03': [c03], 'C05': [c05], 'C08': [c08], 'C11': [c11], 'C13': [c13],
-                 'C15': [c15], 'C16': [c16], 'C17': [c17, c05]})
+                 'C15': [c15], 'C16': [c16], 'C17': [c17, c05, c17_hist]})
 
 
 # ------------------------------------------------------------------------------------------ C04
